@@ -60,7 +60,9 @@ def bump(row):
 
 KINDS = {'int': 5, 'none': None, 'object': object(), 'class': dict, 'fn_wrong_param': (lambda x: x),
          'fn_two_params': (lambda row, extra: row), 'bound_method': H().row,
-         'partial': functools.partial(lambda extra, row: bump(row), 0), 'float': 1.5}
+         'partial': functools.partial(lambda extra, row: bump(row), 0), 'float': 1.5,
+         'string': 'not a step', 'dict': {'a': 1}, 'list_of_scalars': [1, 2, 3], 'mixed_rows': [{'a': 1}, [2], 'x']}
+ITEMS = {'string': 10, 'dict': 1, 'list_of_scalars': 3, 'mixed_rows': 3}
 out = {}
 plain = d.Flow([{'a': 1}, {'a': 2}], bump).results()[0]
 for k, link in KINDS.items():
@@ -70,6 +72,8 @@ for k, link in KINDS.items():
         try:
             got = d.Flow(*steps).results()[0]
             out['%s@%d' % (k, pos)] = 'skipped' if got == plain else 'effect'
+            if k in ITEMS and got != plain and sum(len(r) for r in got) - 2 < ITEMS[k]:
+                out['%s@%d' % (k, pos)] = 'items_dropped'
         except Exception as e:
             out['%s@%d' % (k, pos)] = 'rejected:' + type(getattr(e, 'cause', e)).__name__
 print('RESULT ' + json.dumps(out))
@@ -98,6 +102,10 @@ def run_alien_optimized(case):
         cov['callable_shape']['alien_optimized/' + k.split('@')[0]] = 1
         if v.startswith('rejected'):
             counters['links_rejected'] += 1
+        elif v == 'items_dropped':
+            viol.append({'kind': 'link_silently_skipped', 'mech': 'silently_skipped/python_O/iterable_items_dropped',
+                         'msg': 'with assertions disabled (python -O) an iterable of kind %s was accepted as a source but its '
+                         'items did not become rows' % k})
         elif v == 'skipped':
             kind = k.split('@')[0]
             viol.append({'kind': 'link_silently_skipped', 'mech': 'silently_skipped/python_O/' +
@@ -107,6 +115,7 @@ def run_alien_optimized(case):
 
 
 LATE_KEYS = ('bytes', 'hash', 'count_of_rows')
+ITERABLE_ITEMS = {'string': 10, 'dict': 1, 'list_of_scalars': 3, 'mixed_rows': 3}
 
 
 def strip_late(desc):
@@ -391,7 +400,10 @@ def run_case(case):
         pos = rng.randint(0, len(specs))
         kinds = {'int': 5, 'none': None, 'object': object(), 'class': dict, 'fn_wrong_param': (lambda x: x),
                  'fn_two_params': (lambda row, extra: row), 'bound_method': dsl.make_callable('u_bump_n', 'bound_method'),
-                 'partial': dsl.make_callable('u_bump_n', 'partial'), 'float': 1.5}
+                 'partial': dsl.make_callable('u_bump_n', 'partial'), 'float': 1.5,
+                 # iterables that are not tables: a bare string, a mapping, scalars, rows of mixed shapes
+                 'string': 'not a step', 'dict': {'a': 1}, 'list_of_scalars': [1, 2, 3],
+                 'mixed_rows': [{'a': 1}, [2], 'x']}
         akind = rng.choice(sorted(kinds))
         alien = (pos, akind, kinds[akind])
         cov['callable_shape']['alien/' + akind] = 1
@@ -472,6 +484,17 @@ def run_case(case):
             if diff(base, without) is None:
                 add('link_silently_skipped', 'a link of kind %s at position %d was accepted and had no effect'
                     % (akind, pos), 'silently_skipped/' + ('callable' if akind in ('bound_method', 'partial') else 'non_step'))
+            elif akind in ITERABLE_ITEMS:
+                # an iterable that is accepted as a source takes effect with ALL its items
+                extra = sum(len(r) for r in base[1]) - sum(len(r) for r in without[1])
+                later_drops = any(s_['op'] in ('filter_rows', 'deduplicate', 'join', 'delete_resource', 'concatenate')
+                                  or (s_['op'] == 'user' and 'first' in s_['fn'] or s_['op'] == 'user' and 'break' in s_['fn']
+                                      or s_['op'] == 'user' and 'drop' in s_['fn'])
+                                  for s_ in specs[pos:])
+                if extra < ITERABLE_ITEMS[akind] and not later_drops and len(base[1]) > len(without[1]):
+                    add('link_silently_skipped', 'an iterable of kind %s (%d items) at position %d was accepted as a source but '
+                        'only %d of its items became rows' % (akind, ITERABLE_ITEMS[akind], pos, extra),
+                        'silently_skipped/iterable_items_dropped')
         else:
             counters['links_rejected'] += 1
         counters['strategies_compared'] += 1
